@@ -186,7 +186,9 @@ def c02_recursion(tier="quick", seed=0):
         res = pool.map(_rec_case, cases)
     out = []
     for n in RECURSION:
-        bad = [(M, k, dt) for (nn, M, k, dt) in res if nn == n and (k != "MemoryLimitError" or dt > 10)]
+        # "in time proportional to M": ten seconds of CPU time, or six microseconds per byte of the limit (a level of a recursion
+        # through eval / Function compiles its code again: about 150 microseconds per 200-byte frame)
+        bad = [(M, k, dt) for (nn, M, k, dt) in res if nn == n and (k != "MemoryLimitError" or dt > max(10.0, M * 6e-6))]
         out.append(ob(f"C02.bounded.recursion.{n}", not bad, "B", "ok" if not bad else f"M={bad[0][0]}: {bad[0][1]} after {bad[0][2]:.1f}s",
                       witness=(RECURSION[n] if bad else None), confirmed=True if bad else None, domain=len(Ms)))
     return out
